@@ -158,10 +158,7 @@ func (m *Message) MID() string { return m.Header.Get(HEADER_MID) }
 //
 // The Winlink Message Format only allow ASCII characters. Words containing non-ASCII characters are Q-encoded with DefaultCharset (as defined by RFC 2047).
 func (m *Message) SetSubject(str string) {
-	encoded, _ := toCharset(DefaultCharset, str)
-	encoded = mime.QEncoding.Encode(DefaultCharset, encoded)
-
-	m.Header.Set(HEADER_SUBJECT, encoded)
+	m.Header.Set(HEADER_SUBJECT, encodeHeaderText(str))
 }
 
 // Subject returns this message's subject header decoded using WordDecoder.
@@ -425,8 +422,7 @@ func (m *Message) AddFile(f *File) {
 	m.files = append(m.files, f)
 
 	// According to spec, only ASCII is allowed.
-	encodedName, _ := toCharset(DefaultCharset, f.Name())
-	encodedName = mime.QEncoding.Encode(DefaultCharset, encodedName)
+	encodedName := encodeHeaderText(f.Name())
 
 	// Add header
 	m.Header.Add(HEADER_FILE, fmt.Sprintf("%d %s", f.Size(), encodedName))
